@@ -814,6 +814,8 @@ class BlobStorage(BlobStorageMixin):
             for filename in files:
                 filepath = os.path.join(oid_path, filename)
                 whatever, serial = self.fshelper.splitBlobFilename(filepath)
+                if self._blob_in_progress(oid, serial):
+                    continue
                 try:
                     self.loadSerial(oid, serial)
                 except POSKeyError:
@@ -821,6 +823,13 @@ class BlobStorage(BlobStorageMixin):
 
             if not os.listdir(oid_path):
                 shutil.rmtree(oid_path)
+
+    def _blob_in_progress(self, oid, serial):
+        # The file of a transaction that has stored its blob and not yet
+        # finished: its revision cannot be loaded yet, and it is none of
+        # the pack's business (the pack runs without the commit lock).
+        with self._lock:
+            return (oid, serial) in self.dirty_oids
 
     def _packNonUndoing(self, packtime, referencesf):
         for oid, oid_path in self.fshelper.listOIDs():
@@ -830,16 +839,25 @@ class BlobStorage(BlobStorageMixin):
             except (POSKeyError, KeyError):
                 exists = False
 
+            files = []
+            for filename in sorted(os.listdir(oid_path)):
+                filepath = os.path.join(oid_path, filename)
+                whatever, serial = self.fshelper.splitBlobFilename(filepath)
+                if not self._blob_in_progress(oid, serial):
+                    files.append((filepath, serial))
+
             if exists:
-                files = os.listdir(oid_path)
-                files.sort()
-                latest = files[-1]  # depends on ever-increasing tids
-                files.remove(latest)
-                for f in files:
-                    remove_committed(os.path.join(oid_path, f))
+                # Keep the latest (depends on ever-increasing tids) and
+                # what the storage has kept besides (one without undo may
+                # still keep the revisions newer than the pack time).
+                for filepath, serial in files[:-1]:
+                    try:
+                        self.loadSerial(oid, serial)
+                    except (POSKeyError, KeyError):
+                        remove_committed(filepath)
             else:
-                remove_committed_dir(oid_path)
-                continue
+                for filepath, serial in files:
+                    remove_committed(filepath)
 
             if not os.listdir(oid_path):
                 shutil.rmtree(oid_path)
